@@ -124,5 +124,24 @@ def search (I : ITable) : List Nat → List Bytes
     | none => []
     | some id => id :: search I rest
 
+/-! the hypotheses of the SSE-2 theorems as a computation on this run -/
+
+def storedAddrs (K1 : Bytes) (db : DB) : List (Option Nat) :=
+  db.flatMap fun p => (List.range p.2.length).map fun i =>
+    match addr cfg lv K1 p.1 ((1 + i : Nat) : Int) with | .ok a => some a | .error _ => none
+
+def nodupO : List (Option Nat) → Bool
+  | [] => true
+  | a :: as => a.isSome && !as.contains a && nodupO as
+
+def hypsB (K1 : Bytes) (db : DB) (absent : List Bytes) : Bool :=
+  let st := storedAddrs cfg lv K1 db
+  let fresh := fun (w : Bytes) (j : Nat) => match addr cfg lv K1 w (j : Int) with
+    | .ok a => !st.contains (some a) | .error _ => false
+  nodupO st &&
+  db.all (fun p => p.2.length ≤ cfg.n.toNat && (p.2.length == cfg.n.toNat || fresh p.1 (1 + p.2.length))) &&
+  absent.all (fun w => fresh w 1) &&
+  (match encDb cfg lv K1 db [] [] with | .ok (_, cnt) => cnt.all (fun p => p.2 ≤ cfg.max) | .error _ => false)
+
 end SSE2
 end SSEPy.Sch
